@@ -156,7 +156,7 @@ PROPS = {
         "modules": ["CambrianModel.Props.C11"],
         "theorems": ["Cambrian.Props.C11_reject", "Cambrian.Props.C11_rt_json", "Cambrian.Props.C11_rt_value",
                      "Cambrian.Props.C11_init_conf", "Cambrian.Props.C11_same", "Cambrian.Props.C11_before"],
-        "correspondences": ["codec", "ctl", "twin"],
+        "correspondences": ["codec", "ctl", "twin", "run", "proc"],
         "trusted": CODEC_TRUST + CTL_TRUST,
         "assumptions": ["JSON documents: integers answered by as_i64 are in the i64 range, floats are finite, arrays have at most usize::MAX elements (jvalid, jsized)",
                         "round trip is stated for the model's own field order of map objects (numeric key order); the real serde_json order (string order) is covered by K-codec"],
@@ -191,7 +191,7 @@ PROPS = {
     "C06": {
         "modules": ["CambrianModel.Props.C06"],
         "theorems": ["Cambrian.Props.C06_first", "Cambrian.Props.C06_after_abort_keeps_error", "Cambrian.Props.C06_child_not_ok"],
-        "correspondences": ["ctl", "proc"],
+        "correspondences": ["ctl", "proc", "run"],
         "trusted": CTL_TRUST,
         "assumptions": ["float laws used: none"],
     },
